@@ -72,7 +72,7 @@ class GW(StoreW):
         m = self.rand_param(r.choice(ALL_MECHS))
         data = objs.rnd(r, r.choice([0, 1, 8, 15, 16, 17, 31, 32, 33, 64, 117, 127, 128, 129, 245, 255, 256, 257, 1000, 5000]))
         cap = r.choice([None, None, 0, 1, 15, 16, 17, 32, 64, 127, 128, 129, 256, 512, 6000])
-        fam = r.choice(["enc", "dec", "sign", "verify", "digest", "signrec", "wrap", "unwrap", "unwrap", "unwrap", "derive", "gen", "genpair", "attr", "obj", "find", "misc", "token", "legacy"])
+        fam = r.choice(["enc", "dec", "sign", "verify", "digest", "signrec", "wrap", "unwrap", "unwrap", "unwrap", "derive", "derive", "gen", "genpair", "attr", "obj", "find", "misc", "token", "legacy"])
         E = lambda op: self.emit(op, tid, ok=False)
         if fam in ("enc", "dec", "sign", "verify", "signrec") and r.random() < 0.5:
             # matched stratum: a mechanism that FITS a live key, so that *Init succeeds and the hostile part (data and buffer lengths) reaches the code behind it
@@ -97,7 +97,7 @@ class GW(StoreW):
                 if mm in (K.CKM_AES_CBC, K.CKM_AES_CBC_PAD): m = mechs.simple(mm, objs.rnd(r, 16))
                 elif mm in (K.CKM_DES3_CBC, K.CKM_DES3_CBC_PAD): m = mechs.simple(mm, objs.rnd(r, 8))
                 elif mm == K.CKM_AES_CTR: m = mechs.ctr(r.choice([1, 32, 128]), objs.rnd(r, 16))
-                elif mm == K.CKM_AES_GCM: m = mechs.gcm(objs.rnd(r, r.choice([1, 12, 16])), objs.rnd(r, r.choice([0, 5])), r.choice([0, 32, 96, 128]))
+                elif mm == K.CKM_AES_GCM: m = mechs.gcm(objs.rnd(r, r.choice([0, 0, 1, 12, 16, 200])), objs.rnd(r, r.choice([0, 5])), r.choice([0, 32, 96, 128]))
                 elif mm == K.CKM_RSA_PKCS_OAEP: m = mechs.oaep(K.CKM_SHA_1, K.CKG_MGF1_SHA1)
                 elif mm in (K.CKM_RSA_PKCS_PSS, K.CKM_SHA256_RSA_PKCS_PSS): m = mechs.pss(mm, r.choice([K.CKM_SHA_1, K.CKM_SHA256]), r.choice([K.CKG_MGF1_SHA1, K.CKG_MGF1_SHA256]), r.choice([0, 20, 32, 94, 95, 1000]))
                 else: m = mechs.simple(mm)
@@ -165,6 +165,25 @@ class GW(StoreW):
             blob = r.choice([b"", b"\x00", objs.rnd(r, 7), objs.rnd(r, 8), objs.rnd(r, 16), objs.rnd(r, 24), objs.rnd(r, 40), objs.rnd(r, 128), objs.rnd(r, 129), objs.rnd(r, 256), bytes(128), b"\xff" * 128])
             src = blob.hex() if r.random() < 0.7 else {"from": "hw", **({"trunc": r.randrange(40)} if r.random() < 0.5 else {"flip": r.randrange(999)})}
             E({"f": "C_UnwrapKey", "s": s, "mech": m, "ukey": o, "in": src, "tmpl": self.weird_template(new), "out": new})
+            self.info[new] = {"kind": "generic", "secret": {}}
+        elif fam == "derive" and r.random() < 0.5:
+            # matched: a base key that FITS the mechanism and a well-formed (ordinary key) template, so that the call gets as far as the mechanism parameter;
+            # the parameter's data lengths are the hostile part (0, 1, unaligned, huge)
+            cand = [(x, self.info.get(x.ref, {}).get("kind")) for x in self.live_objs(pid)]
+            cand = [(x, kd) for x, kd in cand if kd in ("aes", "des3", "generic", "ec_priv")]
+            live_ = self.live_sessions(pid)
+            if not cand or not live_: return False
+            ko, kd = r.choice(cand); ss_ = [x for x in live_ if x.tok == ko.tok] or live_
+            dl = r.choice([0, 0, 1, 7, 8, 15, 16, 17, 32, 4096])
+            if kd == "aes": mm = r.choice([mechs.kdsd(K.CKM_AES_ECB_ENCRYPT_DATA, objs.rnd(r, dl)), mechs.aes_cbc_encrypt_data(objs.rnd(r, 16), objs.rnd(r, dl)), mechs.kdsd(K.CKM_CONCATENATE_BASE_AND_DATA, objs.rnd(r, dl)), mechs.kdsd(K.CKM_CONCATENATE_DATA_AND_BASE, objs.rnd(r, dl))])
+            elif kd == "des3": mm = r.choice([mechs.kdsd(K.CKM_DES3_ECB_ENCRYPT_DATA, objs.rnd(r, dl)), mechs.des_cbc_encrypt_data(K.CKM_DES3_CBC_ENCRYPT_DATA, objs.rnd(r, 8), objs.rnd(r, dl))])
+            elif kd == "generic": mm = r.choice([mechs.kdsd(K.CKM_CONCATENATE_BASE_AND_DATA, objs.rnd(r, dl)), mechs.kdsd(K.CKM_CONCATENATE_DATA_AND_BASE, objs.rnd(r, dl))])
+            else: mm = mechs.ecdh1(r.choice([b"", b"\x04", objs.rnd(r, 33), objs.rnd(r, 65), bytes.fromhex(objs.POOL["ec"][0]["q"]), b"\x04" + bytes(64), objs.rnd(r, 300)]))
+            new = self.new_obj()
+            tm = [A_bytes(K.CKA_LABEL, objs.label(new)), A_ulong(K.CKA_CLASS, K.CKO_SECRET_KEY), A_ulong(K.CKA_KEY_TYPE, r.choice([K.CKK_GENERIC_SECRET, K.CKK_AES, K.CKK_DES3])), A_bool(K.CKA_TOKEN, r.random() < 0.3), A_bool(K.CKA_PRIVATE, False),
+                  A_bool(K.CKA_SENSITIVE, False), A_bool(K.CKA_EXTRACTABLE, True)]
+            if r.random() < 0.6: tm.append(A_ulong(K.CKA_VALUE_LEN, r.choice([0, 1, 16, 24, 32, 64, 4096])))
+            E({"f": "C_DeriveKey", "s": r.choice(ss_).ref, "mech": mm, "base": ko.ref, "tmpl": tm, "out": new})
             self.info[new] = {"kind": "generic", "secret": {}}
         elif fam == "derive":
             new = self.new_obj()
